@@ -5,6 +5,7 @@ import StepModel.P21.ReaderLemmas17
 import StepModel.P21.ReaderLemmas18
 import StepModel.P21.ReaderLemmas19
 import StepModel.P21.ReaderLemmas24
+import StepModel.P21.ReaderLemmas28
 import StepModel.Generated.P21RWGen
 /-! # C01 — exchange files survive read-then-write: property theorems
 
@@ -1649,6 +1650,62 @@ theorem C01_read_file_all_shapes_partial {F} (ops : FloatOps F) (lex : LexCfg) (
   · rw [hc]; simp [xs]
   · rw [hv]; simp [xs]
 
+/-! ### the composition principle, and externally mapped records laid out as the writer lays them out -/
+
+/-- **read = denote, the composition principle** (`_partial`): for *any* records - given by their text, the instance
+    pass 1 makes and the instance pass 2 leaves (`Item`) - that satisfy the two record-level facts `Item1OK` / `Item2OK`
+    with severity NULL, in any order, number and layout, with pairwise different ids: one instance per record as its
+    record-level fact says, severity NULL, exit status 0, every instance counted valid.  Every record-level theorem
+    (`anyRec_item1/2`, `C01_complex_record_blanks_item`, …) composes to the file level through this theorem. -/
+theorem C01_read_items_partial {F} (ops : FloatOps F) (lex : LexCfg) (cfg : RWCfg) (d : Dict) (strict : Bool)
+    (hskip : cfg.skipInstanceSkipsComments = true)
+    (xs : List (Item F)) (g0 sp gE after : List Byte) (hg0 : Seps g0) (hsp : sp.all isSpace = true) (hgE : Seps gE)
+    (hnd : (xs.map (·.id)).Nodup) (hnull : ∀ x ∈ xs, x.sev = .null)
+    (h1 : ∀ x ∈ xs, Item1OK cfg d x)
+    (h2 : ∀ x ∈ xs, Item2OK ops lex cfg d strict (Mgr.lookup d ({ insts := xs.map (·.mkI) } : Mgr F)) x) :
+    ∃ res, readDataSection ops lex cfg d strict false
+        (g0 ++ renderItems xs (endsec sp (gE ++ (endIso ++ 59 :: after)))) = .ok res ∧
+      res.mgr.insts = xs.map (·.out) ∧ res.sev = .null ∧ exitStatus res.sev = 0 ∧
+      res.created = xs.length ∧ res.notCreated = 0 ∧ res.valid = xs.length ∧ res.invalid = 0 := by
+  obtain ⟨res, hr, hm, hsev, hc, hnc, hv, hinv, _⟩ :=
+    readDataSection_items ops lex cfg hskip d strict sp _ hsp (tailOK_endIso gE hgE after) xs g0 hg0 h1 hnd h2
+  have hall : errAfterI .null xs = .null := errAfterI_null xs hnull
+  exact ⟨res, hr, hm, by rw [hsev, hall], by rw [hsev, hall]; rfl, hc, hnc, hv, hinv⟩
+
+/-- an externally mapped record with blanks `sp0` between the outer `(` and the first part, as the loops see it -/
+def cxItemS {F} (d : Dict) (r : CRec F) (sp0 g : List Byte) : Item F :=
+  { body := r.textS sp0 [], g := g, id := r.id, mkI := mkCInst d r, out := finCInst d r, sev := .null }
+
+theorem crec_textS_append {F} (r : CRec F) (sp0 rest : List Byte) : r.textS sp0 [] ++ rest = r.textS sp0 rest := by
+  simp [CRec.textS, List.append_assoc]
+
+/-- **an externally mapped record laid out as `STEPcomplex::STEPwrite` lays it out** (record level, both passes;
+    `#id=(⏎PART(…)⏎PART(…)⏎);`): `C01_complex_record_both_passes_partial` with blanks between the outer `(` and the first
+    part - `ReadStdKeyword` in `CreateSubSuperInstance`'s loop and `STEPcomplex::STEPread` both step over them.  The record
+    satisfies `Item1OK` and `Item2OK`, so `C01_read_items_partial` puts it into a file among records of any other shape. -/
+theorem C01_complex_record_blanks_item {F} (ops : FloatOps F) (lex : LexCfg) (cfg : RWCfg) (d : Dict) (strict : Bool)
+    (hskip : cfg.skipInstanceSkipsComments = true) (hcri : lex.criSkipsComments = true) (hagg : cfg.aggrSkipsComments = true)
+    (hmc : cfg.missingCheckEverySecond = false) (hrep : cfg.complexReportsError = true) (lk : Lookup)
+    (r : CRec F) (sp0 g : List Byte) (hl : r.Lex) (hsp0 : sp0.all isSpace = true) (hg : Seps g)
+    (hlegal : d.complexSets.contains (sortNames ((r.parts.map (·.name)).filter (fun n => (d.entity? n).isSome))) = true)
+    (hknown : ∀ c ∈ r.parts, (d.entity? c.name).isSome = true)
+    (hcov : ∀ c ∈ r.parts, CPartCovered { ops := ops, lex := lex, cfg := cfg, dict := d, lookup := lk } c) :
+    Item1OK cfg d (cxItemS d r sp0 g) ∧ Item2OK ops lex cfg d strict lk (cxItemS d r sp0 g) := by
+  refine ⟨⟨hg, rfl, ?_⟩, ⟨hg, rfl, rfl, ?_, ?_⟩⟩
+  · intro m hnone l c k hc h47 h92
+    obtain ⟨l', h⟩ := createInstance_crecS cfg hskip d m r hl sp0 hsp0 hnone hlegal l g hg c k hc h47 h92
+    refine ⟨l', ?_⟩
+    show createInstance cfg d m (G l (r.textS sp0 [] ++ (g ++ c :: k)) false) = _
+    rw [crec_textS_append]
+    exact h
+  · show keyOf (finCInst d r) = keyOf (mkCInst d r)
+    simp only [keyOf, finCInst, foldl_setPart_names]
+  · intro st l rest sk hfind hlk hs
+    have hs' : st.s = G l (r.textS sp0 rest) sk := by rw [← crec_textS_append]; exact hs
+    obtain ⟨l', sk', _, h⟩ := readInstance_crecS ops lex cfg d strict st hrep r hl sp0 hsp0 l rest sk hs' (mkCInst d r) hfind rfl rfl
+      (fun c hc => cpartCovered_okF _ _ hcri hagg hmc c (by rw [hlk]; exact hcov c hc)) (mkCInst_names d r hknown)
+    exact ⟨l', sk', h⟩
+
 /-! ### the two halves composed, and their hypotheses on a concrete file -/
 
 /-- **the token the writer emits for a stored value denotes that value** (`storable_covered`, exported): for every stored
@@ -1898,6 +1955,82 @@ theorem C01_read_file_all_shapes_witness :
         simp only [eRecA, List.mem_cons, List.not_mem_nil, or_false] at hq
         subst hq
         exact Covered.integer wAttrI rfl rfl rfl [53] (by decide) (by decide) (by decide) [] [] sepsNil sepsNil)
+  exact ⟨res, h, hi, hs, hc, hv⟩
+
+/-! #### … and of the composition principle with a record laid out as the writer does: `#1=A(5);⏎#2=(⏎A(7)⏎C(#1)⏎);⏎` -/
+def mwPartA : CPart Nat := { n0 := 65, ns := [], sA := [], body := renderParams mPsA, sB := [10], vals := mPsA.map (·.v) }
+def mwPartC : CPart Nat := { n0 := 67, ns := [], sA := [], body := renderParams mPsC, sB := [10], vals := mPsC.map (·.v) }
+def mwCRec : CRec Nat := { ds := [50], s1 := [], s2 := [], parts := [mwPartA, mwPartC], s4 := [] }
+def mwItems : List (Item Nat) := [(AnyRec.simple wRecA).item mDict, cxItemS mDict mwCRec [10] [10]]
+def mwEnv : Env Nat :=
+  { ops := dblOps, lex := Generated.rwLexCfg, cfg := Generated.rwCfg, dict := mDict,
+    lookup := Mgr.lookup mDict ({ insts := mwItems.map (·.mkI) } : Mgr Nat) }
+
+theorem C01_read_items_witness :
+    ∃ res, readDataSection dblOps Generated.rwLexCfg Generated.rwCfg mDict false false
+        ([10] ++ renderItems mwItems (endsec [] ([10] ++ (endIso ++ 59 :: [10])))) = .ok res ∧
+      res.mgr.insts = mwItems.map (·.out) ∧ res.sev = .null ∧ res.created = 2 ∧ res.valid = 2 := by
+  have sepsNil : Seps ([] : List Byte) := Seps.blanks [] (by decide)
+  have sepsNl : Seps ([10] : List Byte) := Seps.blanks [10] (by decide)
+  have hA : AnyRecCovered mwEnv (.simple wRecA) := by
+    refine ⟨⟨by decide, by decide, by decide, sepsNil, sepsNil, sepsNil, sepsNil, by decide, by decide, by decide⟩, sepsNl,
+      { name := "A", attrs := [wAttrI], ancestors := ["A"] }, by decide, rfl,
+      AlignedA.keep wAttrI _ _ rfl AlignedA.nil, ?_⟩
+    intro q hq
+    simp only [wRecA, List.mem_cons, List.not_mem_nil, or_false] at hq
+    subst hq
+    exact Covered.integer wAttrI rfl rfl rfl [53] (by decide) (by decide) (by decide) [] [] sepsNil sepsNil
+  have hC := C01_complex_record_blanks_item dblOps Generated.rwLexCfg Generated.rwCfg mDict false (by decide) (by decide) (by decide)
+    (by decide) (by decide) mwEnv.lookup mwCRec [10] [10]
+    (by
+      refine ⟨by decide, by decide, by decide, sepsNil, sepsNil, sepsNil, List.cons_ne_nil _ _, ?_⟩
+      intro c hc
+      simp only [mwCRec, List.mem_cons, List.not_mem_nil, or_false] at hc
+      rcases hc with rfl | rfl
+      · exact ⟨by decide, by decide, by decide, by decide, [55], rfl,
+          Bal.plain 55 [] (by decide) (by decide) (by decide) Bal.nil⟩
+      · exact ⟨by decide, by decide, by decide, by decide, [35, 49], rfl,
+          Bal.plain 35 _ (by decide) (by decide) (by decide) (Bal.plain 49 [] (by decide) (by decide) (by decide) Bal.nil)⟩)
+    (by decide) sepsNl (by decide)
+    (by
+      intro c hc
+      simp only [mwCRec, List.mem_cons, List.not_mem_nil, or_false] at hc
+      rcases hc with rfl | rfl <;> decide)
+    (by
+      intro c hc
+      simp only [mwCRec, List.mem_cons, List.not_mem_nil, or_false] at hc
+      rcases hc with rfl | rfl
+      · refine CPartCovered.params 65 [] [] [10] (by decide) (by decide) (by decide) (by decide)
+          { name := "A", attrs := [wAttrI], ancestors := ["A"] } (by decide) mPsA (List.cons_ne_nil _ _) rfl ?_
+        intro q hq
+        simp only [mPsA, List.mem_cons, List.not_mem_nil, or_false] at hq
+        subst hq
+        exact Covered.integer wAttrI rfl rfl rfl [55] (by decide) (by decide) (by decide) [] [] sepsNil sepsNil
+      · refine CPartCovered.params 67 [] [] [10] (by decide) (by decide) (by decide) (by decide)
+          { name := "C", attrs := [wAttrR], ancestors := ["C"] } (by decide) mPsC (List.cons_ne_nil _ _) rfl ?_
+        intro q hq
+        simp only [mPsC, List.mem_cons, List.not_mem_nil, or_false] at hq
+        subst hq
+        exact Covered.ref (env := mwEnv) wAttrR "A" rfl rfl rfl [49] (by decide) (by decide) (by decide) (by decide) [] [] sepsNil sepsNil)
+  obtain ⟨res, h, hi, hs, _, hc, _, hv, _⟩ := C01_read_items_partial dblOps Generated.rwLexCfg Generated.rwCfg mDict false
+    (by decide) mwItems [10] [] [10] [10] sepsNl (by decide) sepsNl (by decide)
+    (by
+      intro x hx
+      simp only [mwItems, List.mem_cons, List.not_mem_nil, or_false] at hx
+      rcases hx with rfl | rfl <;> rfl)
+    (by
+      intro x hx
+      simp only [mwItems, List.mem_cons, List.not_mem_nil, or_false] at hx
+      rcases hx with rfl | rfl
+      · exact anyRec_item1 dblOps Generated.rwLexCfg Generated.rwCfg mDict (by decide) _ _ hA
+      · exact hC.1)
+    (by
+      intro x hx
+      simp only [mwItems, List.mem_cons, List.not_mem_nil, or_false] at hx
+      rcases hx with rfl | rfl
+      · exact anyRec_item2 dblOps Generated.rwLexCfg Generated.rwCfg mDict false (by decide) (by decide) (by decide) (by decide)
+          (by decide) _ _ hA
+      · exact hC.2)
   exact ⟨res, h, hi, hs, hc, hv⟩
 
 def exDict : Dict :=
